@@ -435,3 +435,65 @@ long syscall(long number, ...) {
     if (detrand && number == SYS_getrandom) { fill((void *)a0, (size_t)a1); return a1; }
     return real_syscall(number, a0, a1, a2, a3, a4, a5);
 }
+
+/* Directory listing order is an answer of the environment too (file system dependent): VERIF_READDIR=<n> serves the
+ * entries of every directory stream in a permuted order - 1 reversed, n >= 2 rotated by n (after sorting by name, so that
+ * the order is a function of <n> and the names only). */
+#include <dirent.h>
+#define MAXDIRS 32
+#define MAXENTS 8192
+struct dirbuf { DIR *d; struct dirent64 *ents; int n, pos; };
+static struct dirbuf dirbufs[MAXDIRS];
+static int readdir_mode = -1;
+static struct dirent64 *(*real_readdir64)(DIR *);
+static int (*real_closedir)(DIR *);
+static int cmp_dirent(const void *a, const void *b) { return strcmp(((const struct dirent64 *)a)->d_name, ((const struct dirent64 *)b)->d_name); }
+static struct dirbuf *dirbuf_for(DIR *d, int create) {
+    for (int i = 0; i < MAXDIRS; i++)
+        if (dirbufs[i].d == d) return &dirbufs[i];
+    if (!create) return NULL;
+    for (int i = 0; i < MAXDIRS; i++)
+        if (!dirbufs[i].d) {
+            struct dirbuf *b = &dirbufs[i];
+            b->ents = malloc(sizeof(struct dirent64) * 64);
+            int cap = 64;
+            b->n = 0;
+            struct dirent64 *e;
+            while ((e = real_readdir64(d)) != NULL && b->n < MAXENTS) {
+                if (b->n == cap) { cap *= 2; b->ents = realloc(b->ents, sizeof(struct dirent64) * cap); }
+                memcpy(&b->ents[b->n++], e, sizeof(struct dirent64));
+            }
+            qsort(b->ents, b->n, sizeof(struct dirent64), cmp_dirent);
+            if (readdir_mode == 1) {
+                for (int l = 0, r = b->n - 1; l < r; l++, r--) { struct dirent64 t = b->ents[l]; b->ents[l] = b->ents[r]; b->ents[r] = t; }
+            } else if (readdir_mode >= 2 && b->n > 0) {
+                int k = readdir_mode % b->n;
+                struct dirent64 *t = malloc(sizeof(struct dirent64) * b->n);
+                for (int j = 0; j < b->n; j++) t[j] = b->ents[(j + k) % b->n];
+                memcpy(b->ents, t, sizeof(struct dirent64) * b->n);
+                free(t);
+            }
+            b->pos = 0;
+            b->d = d;
+            return b;
+        }
+    return NULL;
+}
+struct dirent64 *readdir64(DIR *d) {
+    init();
+    if (!real_readdir64) real_readdir64 = dlsym(RTLD_NEXT, "readdir64");
+    if (readdir_mode < 0) { const char *m = getenv("VERIF_READDIR"); readdir_mode = (m && *m) ? atoi(m) : 0; }
+    if (readdir_mode == 0) return real_readdir64(d);
+    struct dirbuf *b = dirbuf_for(d, 1);
+    if (!b) return real_readdir64(d);
+    if (b->pos >= b->n) return NULL;
+    return &b->ents[b->pos++];
+}
+struct dirent *readdir(DIR *d) { return (struct dirent *)readdir64(d); }
+int closedir(DIR *d) {
+    init();
+    if (!real_closedir) real_closedir = dlsym(RTLD_NEXT, "closedir");
+    struct dirbuf *b = dirbuf_for(d, 0);
+    if (b) { free(b->ents); b->ents = NULL; b->d = NULL; }
+    return real_closedir(d);
+}
